@@ -116,6 +116,13 @@ func (g *G) extraHosts() any {
 			e.ips = []string{g.ipv4(), g.ipv6()}
 		}
 		hs = append(hs, e)
+		if g.chance(0.3) {
+			// a second, distinct name that is equal ignoring letter case (a distinct key and hosts line)
+			hs = append(hs, h{name: strings.ToUpper(e.name[:1]) + e.name[1:], ips: []string{g.ipv4()}})
+			if g.chance(0.5) {
+				hs = append(hs, h{name: strings.ToUpper(e.name), ips: []string{g.ipv4()}})
+			}
+		}
 	}
 	if g.long() {
 		m := M{}
